@@ -114,7 +114,7 @@ type pristine struct {
 	tree   rtk.Tree // the dump directory
 	tar    []byte
 	enc    []byte
-	refDB  string // canonical content of the target database after loading the pristine dump
+	refDB  fakedb.Spec // content of the target database after loading the pristine dump
 	refLog int
 }
 
@@ -140,7 +140,7 @@ func (e *env) makePristine(codec string) *pristine {
 	p.tree.Write(e.in)
 	_, err = retriever.Load(context.Background(), db, rtk.Driver, retriever.LoadOptions{InputDir: e.in, BatchSize: 2})
 	must(err)
-	p.refDB = rtk.Canon(db.Snapshot())
+	p.refDB = db.Snapshot()
 	p.refLog = len(db.Log)
 	return p
 }
@@ -163,10 +163,10 @@ var kindName = map[kind]string{loadDir: "Load(dir)", loadArchive: "Load(archive)
 	unpackStaged: "Unpack", unpackStagedForce: "Unpack(force,existing)", unpackFile: "UnpackEncryptedCollectionArchiveFile"}
 
 type obs struct {
-	err     error
-	res     vos.Result
-	dbLog   []fakedb.Mutation
-	dbCanon string
+	err   error
+	res   vos.Result
+	dbLog []fakedb.Mutation
+	db    fakedb.Spec
 }
 
 var existingOut = rtk.Tree{".": {Dir: true}, "old.txt": {Data: []byte("previous content")}, "graphs": {Dir: true}, "graphs/old": {Data: []byte("x")}}
@@ -204,7 +204,7 @@ func (e *env) exec(k kind, input []byte, identity hpke.PrivateKey, verifyMetrics
 	})
 	o.dbLog = db.Log
 	if k == loadDir || k == loadArchive {
-		o.dbCanon = rtk.Canon(db.Snapshot())
+		o.db = db.Snapshot()
 	}
 	e.run.Add("evaluations", 1)
 	return o
@@ -273,9 +273,10 @@ func (e *env) judge(p *pristine, a artefact, o obs) {
 			}
 		} else {
 			e.run.Add("accepted_with_identical_result", 1)
-			if o.dbCanon != p.refDB { // (iii) integrity
+			if why := sameDatabase(p.refDB, o.db); why != "" { // (iii) integrity
+				a.Note = why
 				e.run.Add("accepted_with_identical_result", -1)
-				e.report("tampered-input-loaded-differently:"+t, a, "Load succeeded and the target database differs from the one the pristine dump produces")
+				e.report("tampered-input-loaded-differently:"+t, a, "Load succeeded and the target database differs from the one the pristine dump produces: "+why)
 			}
 		}
 	default:
@@ -290,13 +291,71 @@ func (e *env) judge(p *pristine, a artefact, o obs) {
 				e.report("unpack-error-leaves-partial-output:"+t, a, fmt.Sprintf("%s, and the output directory holds %v", short(o.err), after.Files()))
 			}
 		} else {
-			e.run.Add("accepted_with_identical_result", 1)
-			if d := p.tree.Diff(after); d != "" {
-				e.run.Add("accepted_with_identical_result", -1)
+			d := p.tree.Diff(after)
+			switch {
+			case d == "":
+				e.run.Add("accepted_with_identical_result", 1)
+			case a.kind == unpackTar && onlyManifestDiffers(p.tree, after):
+				// Nothing authenticates the manifest of a plain TAR beyond its own consistency and the fragment digests it carries,
+				// so no unpacker can notice an edit of e.g. its whitespace, driver or generated_at. The strongest requirement such a
+				// container can meet: every fragment is byte-identical and loading the unpacked directory gives the pristine
+				// database or fails before writing.
+				db := fakedb.New(fakedb.Spec{}, 100000)
+				_, lerr := retriever.Load(context.Background(), db, rtk.Driver, retriever.LoadOptions{InputDir: e.out, BatchSize: 2})
+				e.run.Add("evaluations", 1)
+				if lerr != nil && len(db.Log) > 0 {
+					e.report("load-error-after-writes:Load(dir) after UnpackTar", a, fmt.Sprintf("%s after %d write calls", short(lerr), len(db.Log)))
+				} else if lerr == nil {
+					if why := sameDatabase(p.refDB, db.Snapshot()); why != "" {
+						e.report("tampered-archive-unpacked-differently:"+t, a, "unpack succeeded with an edited manifest whose load differs from the pristine database: "+why)
+					}
+				}
+				e.run.Add("accepted_unauthenticated_manifest_edit_same_load_result", 1)
+			default:
 				e.report("tampered-archive-unpacked-differently:"+t, a, fmt.Sprintf("unpack succeeded and the output differs from the pristine dump: %s", d))
 			}
 		}
 	}
+}
+
+func onlyManifestDiffers(want, got rtk.Tree) bool {
+	if len(want) != len(got) {
+		return false
+	}
+	for p, w := range want {
+		g, ok := got[p]
+		if !ok || w.Dir != g.Dir || w.Link != g.Link {
+			return false
+		}
+		if p != "manifest.json" && !bytes.Equal(w.Data, g.Data) {
+			return false
+		}
+	}
+	return true
+}
+
+// sameDatabase compares two databases graph by graph up to isomorphism (destination IDs and creation order are arbitrary).
+func sameDatabase(a, b fakedb.Spec) string {
+	byName := map[string]*fakedb.Graph{}
+	for _, g := range b.Graphs {
+		byName[g.Name] = g
+	}
+	for _, g := range a.Graphs {
+		o := byName[g.Name]
+		if o == nil {
+			o = &fakedb.Graph{Name: g.Name}
+		}
+		if ok, why := rtk.Isomorphic(g, o); !ok {
+			return fmt.Sprintf("graph %q: %s", g.Name, why)
+		}
+		delete(byName, g.Name)
+	}
+	for name, g := range byName {
+		if len(g.Nodes)+len(g.Edges) > 0 {
+			return fmt.Sprintf("extra graph %q", name)
+		}
+	}
+	return ""
 }
 
 // rebuild restores the sandbox after something outside out/ changed.
@@ -377,7 +436,7 @@ func (w *work) byteFamilies(tier core.Tier) {
 			orig := buf[pos]
 			for ki, k := range sc.kinds {
 				vals := subsValues(tier, orig)
-				if tier == core.Thorough && ki > 0 { // all 255 values for the first entry point of a stream, the quick set for the others
+				if tier == core.Thorough && (ki > 0 || p.codec != "none") { // all 255 values: first entry point of a stream, codec none
 					vals = subsValues(core.Quick, orig)
 				}
 				if k == unpackStagedForce {
@@ -435,7 +494,11 @@ func (w *work) byteFamilies(tier core.Tier) {
 				continue
 			}
 			orig := buf[pos]
-			for _, v := range subsValues(tier, orig) {
+			vals := subsValues(tier, orig)
+			if p.codec != "none" && f != "manifest.json" { // fragments of the compressed codecs: quick set (every byte is under the SHA-256)
+				vals = subsValues(core.Quick, orig)
+			}
+			for _, v := range vals {
 				a := artefact{Codec: p.codec, Family: "substitute", Detail: "dump-directory", File: f, Pos: pos, Val: int(v), kind: loadDir}
 				if e.skip(a) {
 					continue
@@ -530,7 +593,7 @@ func main() {
 		os.RemoveAll(e.root)
 		run.Finish()
 	}
-	run.Set("rule", "for a 2-graph dump (3+1 nodes, 2 relationships, shard 2) in each codec {none,gzip,zstd}: every byte position of every dump file, of its TAR and of its encrypted archive x substitutions {^0x01,^0x80,0x00,0xFF} (quick) / all 255 values for the first entry point of each stream (thorough); every truncation length; appended garbage (1 byte, 1-2 TAR blocks, last frame again, whole stream again); structural edits of the manifest (each count/size +-1, each hash nibble, paths, codec, phase, graph names, entry order/duplication/deletion, metrics histograms with recomputed fingerprint), of fragments (swap, delete, empty), of TAR entries (swap, duplicate, delete) and encrypted frames (swap, duplicate, delete, retype); hostile TAR entries (absolute / parent / volume / backslash / blank / long / duplicate names, link / device / fifo / directory / GNU-long-name / PAX entries, oversize / undersize / negative / huge sizes) raw and re-encrypted to the recipient; wrong, edited, truncated and public-as-private keys. Entry points: Load(dir), Load(archive), UnpackTar, UnpackEncryptedCollectionArchive, Unpack, Unpack(force, existing output), UnpackEncryptedCollectionArchiveFile")
+	run.Set("rule", "for a 2-graph dump (3+1 nodes, 2 relationships, shard 2) in each codec {none,gzip,zstd}: every byte position of every dump file, of its TAR and of its encrypted archive x substitutions {^0x01,^0x80,0x00,0xFF} (quick) / all 255 values (thorough) for UnpackTar and Unpack on the codec-none streams, for every manifest and for the codec-none fragments; every truncation length; appended garbage (1 byte, 1-2 TAR blocks, last frame again, whole stream again); structural edits of the manifest (each count/size +-1, each hash nibble, paths, codec, phase, graph names, entry order/duplication/deletion, metrics histograms with recomputed fingerprint), of fragments (swap, delete, empty), of TAR entries (swap, duplicate, delete) and encrypted frames (swap, duplicate, delete, retype); hostile TAR entries (absolute / parent / volume / backslash / blank / long / duplicate names, link / device / fifo / directory / GNU-long-name / PAX entries, oversize / undersize / negative / huge sizes) raw and re-encrypted to the recipient; wrong, edited, truncated and public-as-private keys. Entry points: Load(dir), Load(archive), UnpackTar, UnpackEncryptedCollectionArchive, Unpack, Unpack(force, existing output), UnpackEncryptedCollectionArchiveFile")
 	run.Assume("a write call reaching the fake target database counts as 'written' (drivers may flush at any call)")
 	run.Assume("bytes nothing authenticates (manifest whitespace, generated_at, driver, unknown keys; TAR padding, mtime, uid) may be accepted only with a result identical to the pristine run; both counts are reported (rejected / accepted_with_identical_result)")
 	run.Assume("time-of-check/time-of-use changes of the dump directory during Load are out of scope (the property speaks of the input as given)")
